@@ -178,12 +178,28 @@ impl<'t> DocGen<'t> {
     fn interface_decl(&mut self) {
         let n = self.fresh("iface");
         let mut body = String::new();
-        if self.t.chance(1, 3) {
-            body.push_str("    use foo:shared/types@1.0.0.{point, id as ident};\n");
-            body.push_str("    origin: func() -> point;\n    who: func() -> ident;\n");
-        }
-        if !self.interfaces.is_empty() && self.t.chance(1, 4) {
-            // nothing to `use` from generated interfaces without knowing their types; keep simple
+        // `use` types from up to four foreign interfaces (the order of the dependencies an
+        // encoded interface imports is fixed by the order of these `use`s)
+        let pool: [(&str, &str, &str); 6] = [
+            ("foo:shared/types@1.0.0", "point", "pt"),
+            ("bar:util/fmt", "opts", "fo"),
+            ("foo:shared/geo@1.2.0", "pt3", "p3"),
+            ("foo:shared/types@1.2.0", "color", "col"),
+            ("foo:shared/geo@1.2.0", "axis", "ax"),
+            ("foo:shared/types@1.0.0", "id", "ident"),
+        ];
+        let nuse = *self.t.pick(&[0usize, 0, 1, 2, 3, 4]);
+        let mut order: Vec<usize> = (0..pool.len()).collect();
+        self.t.shuffle(&mut order);
+        let mut used_names: Vec<&str> = Vec::new();
+        for &k in order.iter().take(nuse) {
+            let (path, ty, alias) = pool[k];
+            if used_names.contains(&alias) {
+                continue;
+            }
+            used_names.push(alias);
+            body.push_str(&format!("    use {path}.{{{ty} as {alias}}};\n"));
+            body.push_str(&format!("    get-{alias}: func() -> {alias};\n"));
         }
         let k = self.t.range(0, 3);
         for i in 0..k {
@@ -210,6 +226,22 @@ impl<'t> DocGen<'t> {
     fn world_decl(&mut self) {
         let n = self.fresh("wld");
         let mut body = String::new();
+        if self.t.chance(1, 3) {
+            let pool: [(&str, &str, &str); 4] = [
+                ("foo:shared/types@1.0.0", "point", "pt"),
+                ("bar:util/fmt", "opts", "fo"),
+                ("foo:shared/geo@1.2.0", "pt3", "p3"),
+                ("foo:shared/types@1.2.0", "color", "col"),
+            ];
+            let mut order: Vec<usize> = (0..pool.len()).collect();
+            self.t.shuffle(&mut order);
+            let nuse = self.t.range(2, 4) as usize;
+            for &k in order.iter().take(nuse) {
+                let (path, ty, alias) = pool[k];
+                body.push_str(&format!("    use {path}.{{{ty} as {alias}}};\n"));
+                body.push_str(&format!("    import take-{alias}: func(v: {alias});\n"));
+            }
+        }
         let k = self.t.range(0, 4);
         for i in 0..k {
             match self.t.draw(6) {
@@ -327,6 +359,8 @@ impl<'t> DocGen<'t> {
                     "foo:shared/types@1.0.0",
                     "foo:shared/log@1.1.0",
                     "foo:shared/types@1.1.0",
+                    "foo:shared/nav@1.2.0",
+                    "foo:shared/log@1.2.0",
                     "bar:util/clock",
                     "bar:util/rand",
                     "bar:util/fmt",
@@ -364,8 +398,8 @@ impl<'t> DocGen<'t> {
     fn let_new(&mut self) {
         let lib = library();
         // only components (not the WIT packages at the end of the library)
-        let ncomp = lib.iter().filter(|p| !p.exports.iter().any(|e| e.ends_with("-world"))).count();
-        let li = self.t.index(ncomp);
+        let comps = crate::corpus::component_indices();
+        let li = comps[self.t.index(comps.len())];
         let p = &lib[li];
         let n = self.fresh("inst");
         let mut args: Vec<String> = Vec::new();
